@@ -1592,7 +1592,10 @@ impl<T: ArrayValue> Array<T> {
         let row_count = self.row_count();
         let row_len = self.row_len();
         let mut new_len = 0;
-        if self.meta.is_sorted_up() || self.meta.is_sorted_down() {
+        if self.element_count() == 0 && row_count > 0 {
+            // Rows without elements are all equal, only the first remains
+            new_len = 1;
+        } else if self.meta.is_sorted_up() || self.meta.is_sorted_down() {
             if row_count > 0 {
                 let slice = self.data.as_mut_slice();
                 if row_count > 0 {
@@ -1614,9 +1617,6 @@ impl<T: ArrayValue> Array<T> {
                 }
                 self.data.truncate(new_len * row_len);
             }
-        } else if self.element_count() == 0 && self.row_count() > 0 {
-            self.shape[0] = 1;
-            return Ok(());
         } else {
             let mut seen = HashSet::new();
             let mut deduped = CowSlice::new();
